@@ -307,7 +307,10 @@ pub fn gen(out: &mut Out, thorough: bool, seed: u64) {
     // characters, sign, quote and structure characters: whatever suffix or prefix handling the value parser has, it is walked
     // with a multi-byte character at every position
     {
-        const VA: &[&str] = &["1", "0", "K", "M", "G", "k", "B", "b", "T", "e", "\u{e9}", "\u{20ac}", "\u{1f600}", "-", ".", "\"", "#", "{", "}", " "];
+        // (U+212A KELVIN SIGN, U+00B5 MICRO SIGN, U+017F LONG S, U+0130: characters whose Unicode case mapping lands on or near
+        // an ASCII unit letter)
+        const VA: &[&str] = &["1", "0", "K", "M", "G", "k", "B", "b", "T", "e", "\u{e9}", "\u{20ac}", "\u{1f600}", "-", ".", "\"", "#", "{", "}", " ",
+                              "\u{212a}", "\u{b5}", "\u{17f}", "\u{130}"];
         let depth = if thorough { 4 } else { 3 };
         let mut layer: Vec<String> = vec![String::new()];
         for _ in 0..depth {
